@@ -175,6 +175,76 @@ theorem load_labels_spec (comments : List (Option String)) (elements : List Stri
   · intro h
     simp [h]
 
+/-! ### the Masses section: a line binds its mass and label to its type id (commit 375e8ae) -/
+
+theorem orderLines_perm (lines : List MassLine) : (orderLines lines).Perm lines :=
+  List.mergeSort_perm lines _
+
+theorem orderLines_sorted (lines : List MassLine) : (orderLines lines).Pairwise (fun a b => a.id ≤ b.id) := by
+  have h := List.pairwise_mergeSort (le := fun (a b : MassLine) => decide (a.id ≤ b.id))
+    (by intro a b c; simp only [decide_eq_true_eq]; omega)
+    (by intro a b; simp only [Bool.or_eq_true, decide_eq_true_eq]; omega) lines
+  exact h.imp (by intro a b; simp)
+
+/-- a section that is already in ascending id order (what mofun and LAMMPS write) is read as before the repair -/
+theorem orderLines_of_sorted (lines : List MassLine) (h : lines.Pairwise (fun a b => a.id ≤ b.id)) :
+    orderLines lines = lines :=
+  List.mergeSort_of_pairwise (h.imp (by intro a b hab; simpa using hab))
+
+theorem eq_of_id_eq_of_nodup (lines : List MassLine) (hnd : (lines.map (·.id)).Nodup) (a b : MassLine)
+    (ha : a ∈ lines) (hb : b ∈ lines) (hid : a.id = b.id) : a = b := by
+  induction lines with
+  | nil => cases ha
+  | cons x xs ih =>
+    simp only [List.map_cons, List.nodup_cons, List.mem_map, not_exists, not_and] at hnd
+    simp only [List.mem_cons] at ha hb
+    rcases ha with rfl | ha <;> rcases hb with rfl | hb
+    · rfl
+    · exact absurd hid.symm (hnd.1 b hb)
+    · exact absurd hid (hnd.1 a ha)
+    · exact ih hnd.2 ha hb
+
+/-- **masses_order_invariant.** With distinct type ids the ORDER of the Masses lines is irrelevant: any rearrangement of
+    the lines gives the same ordered section, hence the same elements, labels and masses per type. -/
+theorem masses_order_invariant (l1 l2 : List MassLine) (hp : l1.Perm l2) (hnd : (l1.map (·.id)).Nodup) :
+    orderLines l1 = orderLines l2 := by
+  have p1 := orderLines_perm l1
+  have p2 := orderLines_perm l2
+  apply List.Perm.eq_of_pairwise (le := fun (a b : MassLine) => a.id ≤ b.id) _ (orderLines_sorted l1) (orderLines_sorted l2)
+    (p1.trans (hp.trans p2.symm))
+  intro a b ha hb hab hba
+  exact eq_of_id_eq_of_nodup l1 hnd a b (p1.mem_iff.mp ha) (hp.mem_iff.mpr (p2.mem_iff.mp hb)) (by omega)
+
+theorem load_masses_order_invariant (table : MassTable) (tol : Rat) (l1 l2 : List MassLine) (hp : l1.Perm l2)
+    (hnd : (l1.map (·.id)).Nodup) : loadMasses table tol l1 = loadMasses table tol l2 := by
+  unfold loadMasses; rw [masses_order_invariant l1 l2 hp hnd]
+
+/-- **masses_bound_to_id.** When the ids of the section are 1 … n in any order, the k-th type gets the line whose id is
+    k: the ordered section lists the ids 1, 2, …, n. -/
+theorem masses_bound_to_id (lines : List MassLine) (n : Nat) (hp : (lines.map (·.id)).Perm (List.range' 1 n)) :
+    (orderLines lines).map (·.id) = List.range' 1 n := by
+  apply List.Perm.eq_of_pairwise (le := fun (a b : Nat) => a ≤ b) _ _ _ (((orderLines_perm lines).map _).trans hp)
+  · intro a b _ _ h1 h2; omega
+  · exact List.Pairwise.map _ (fun a b h => h) (orderLines_sorted lines)
+  · exact (List.pairwise_lt_range' (s := 1) (n := n)).imp (fun h => Nat.le_of_lt h)
+
+def exShuffled : List MassLine := [⟨2, 100794 / 100000, some "H_w"⟩, ⟨1, 120107 / 10000, some "C_x"⟩]
+def exInOrder : List MassLine := [⟨1, 120107 / 10000, some "C_x"⟩, ⟨2, 100794 / 100000, some "H_w"⟩]
+
+/-- **the historical defect** (before commit 375e8ae): a section listing `2 1.00794` before `1 12.0107` gave type 1 the
+    element and label of hydrogen; now type 1 is carbon, whatever the order of the lines. -/
+theorem masses_by_position_unrepaired_counterexample :
+    loadMassesByPosition massTable (1 / 10) exShuffled = (["H", "C"], ["H_w", "C_x"])
+    ∧ loadMasses massTable (1 / 10) exShuffled = (["C", "H"], ["C_x", "H_w"]) := by
+  constructor
+  · decide +kernel
+  · have h1 : orderLines exShuffled = orderLines exInOrder :=
+      masses_order_invariant exShuffled exInOrder (List.Perm.swap _ _ _) (by decide)
+    have h2 : orderLines exInOrder = exInOrder := orderLines_of_sorted exInOrder (by decide)
+    unfold loadMasses
+    rw [h1, h2]
+    decide +kernel
+
 /-! ### facts about the table as it is in /repo now (kernel evaluation over the generated definition) -/
 
 /-- pairs of entries (first before second in table order) whose masses differ by less than `bound` -/
@@ -232,6 +302,68 @@ theorem table_separated :
     rw [table_close_pairs] at this
     simp only [List.mem_cons, Prod.mk.injEq, List.not_mem_nil, or_false] at this hnot
     grind
+
+/-- **guess_stable_within_half_gap** (every table, EVERY tolerance): an entry is returned for every mass that is strictly
+    within the tolerance of its own and closer to it than half the distance to any other entry.  (The tolerance-general
+    form of `guess_distinguishable`: what a write/read cycle needs is only that the rounding of the written mass is small
+    against the gap to the nearest other element, whatever `guess_atol` is.) -/
+theorem guess_stable_within_half_gap (table : MassTable) (tol m : Rat) (p : String × Rat) (hp : p ∈ table)
+    (hm : absQ (m - p.2) < tol) (hgap : ∀ q ∈ table, q ≠ p → 2 * absQ (m - p.2) < absQ (q.2 - p.2)) :
+    guess table tol m = some p.1 := by
+  cases hn : nearest table m with
+  | none =>
+    have := (nearest_eq_none_iff table m).mp hn
+    subst this; cases hp
+  | some x =>
+    have hfn := (nearest_eq_some_iff table m x).mp hn
+    have hle := hfn.le p hp
+    unfold massDist at hle
+    have hc := absQ_sub_comm p.2 m
+    have hxp : x = p := by
+      apply Classical.byContradiction
+      intro hne
+      have h2 := hgap x hfn.mem hne
+      have h3 := absQ_tri x.2 m p.2
+      grind
+    unfold guess
+    rw [hn, hxp]
+    simp only
+    split
+    · rfl
+    · grind
+
+/-- the smallest gap of the table: apart from Cm/Bk (equal masses) no two entries are closer than 0.019 (Bi/Po: 0.0196) -/
+theorem table_min_gap_pairs : closePairs massTable (19 / 1000) = [("Cm", "Bk")] := by
+  decide +kernel
+
+theorem table_min_gap :
+    ∀ p ∈ massTable, p.1 ∉ ["Cm", "Bk"] → ∀ q ∈ massTable, q ≠ p → 19 / 1000 ≤ absQ (q.2 - p.2) := by
+  intro p hp hnot q hq hne
+  apply Classical.byContradiction
+  intro hlt
+  have hlt' : absQ (q.2 - p.2) < 19 / 1000 := by grind
+  have hlt'' : absQ (p.2 - q.2) < 19 / 1000 := by rw [absQ_sub_comm]; exact hlt'
+  rcases mass_mem_mem_decomp massTable p q hp hq hne with ⟨a, b, c, h⟩ | ⟨a, b, c, h⟩
+  · have := closePairs_complete massTable _ a b c p q h hlt'
+    rw [table_min_gap_pairs] at this
+    simp only [List.mem_cons, Prod.mk.injEq, List.not_mem_nil, or_false] at this hnot
+    grind
+  · have := closePairs_complete massTable _ a b c q p h hlt''
+    rw [table_min_gap_pairs] at this
+    simp only [List.mem_cons, Prod.mk.injEq, List.not_mem_nil, or_false] at this hnot
+    grind
+
+/-- **guess_table_roundtrip_any_tol.** On the real table, for EVERY tolerance: every element except Cm and Bk — Ar, Ca, Bi
+    and Po included — is returned for every mass that is within the tolerance and less than 0.0095 away from its own
+    (`%10.6f` moves a mass by at most 5·10⁻⁷). -/
+theorem guess_table_roundtrip_any_tol :
+    ∀ p ∈ massTable, p.1 ∉ ["Cm", "Bk"] →
+      ∀ tol m, absQ (m - p.2) < tol → absQ (m - p.2) < 19 / 2000 → guess massTable tol m = some p.1 := by
+  intro p hp hnot tol m hm hsmall
+  apply guess_stable_within_half_gap massTable tol m p hp hm
+  intro q hq hne
+  have := table_min_gap p hp hnot q hq hne
+  grind
 
 /-- the only two entries with equal masses are Cm and Bk -/
 theorem table_equal_masses :
